@@ -148,7 +148,17 @@ func errKind(err error) string {
 			return strings.ReplaceAll(k, " ", "-")
 		}
 	}
-	return "other"
+	// unclassified: keep a digit-free prefix of the text so that the evidence shows what it was
+	var b strings.Builder
+	for _, r := range m {
+		if (r >= 'a' && r <= 'z') || (r >= 'A' && r <= 'Z') || r == ' ' {
+			b.WriteRune(r)
+		}
+		if b.Len() >= 48 {
+			break
+		}
+	}
+	return "other:" + strings.ReplaceAll(strings.TrimSpace(b.String()), " ", "-")
 }
 
 func countSplits(o op, cls Class, out *big.Int, before, after *snap, splits map[string]bool, cnt *Counters) {
@@ -189,7 +199,7 @@ func countSplits(o op, cls Class, out *big.Int, before, after *snap, splits map[
 			loss := new(big.Int).Sub(nonneg(before.vals[o.U][o.D]), out)
 			if loss.Sign() == 0 {
 				mark("ewd:full-exact")
-			} else if loss.Cmp(big.NewInt(2)) > 0 {
+			} else if loss.Cmp(big.NewInt(1)) > 0 {
 				mark("ewd:dust-sweep-large")
 			} else {
 				mark("ewd:dust-sweep-small")
@@ -239,26 +249,40 @@ func countSplits(o op, cls Class, out *big.Int, before, after *snap, splits map[
 	}
 }
 
+// W1: deposit 100, withdraw 91 (9 coins swept as "dust" and left without an owner);
+// W2: another account deposits 1 and withdraws 10
+var knownStream = []op{
+	{Kind: "edep", U: 0, D: dUkava, A: "100", Strat: 2},
+	{Kind: "ewd", U: 0, D: dUkava, A: "91", Strat: 2},
+	{Kind: "edep", U: 1, D: dUkava, A: "1", Strat: 2},
+	{Kind: "ewd", U: 1, D: dUkava, A: "10", Strat: 2},
+}
+
 var allSplits = []string{
 	"edep:first:hard", "edep:first:savings", "edep:existing:hard", "edep:existing:savings", "edep:first-with-orphaned-value",
 	"edep:price-cmp-one=1", "edep:price-cmp-one=0",
 	"ewd:hard", "ewd:savings", "ewd:pays-zero", "ewd:full-exact", "ewd:dust-sweep-small", "ewd:dust-sweep-large", "ewd:partial",
-	"ewd:record-deleted", "ewd:orphans-value", "ewd:with-other-holders", "ewd:refused-with-shares",
+	"ewd:record-deleted", "ewd:orphans-value", "ewd:with-other-holders", "ewd:refused-with-shares", "ewd:strategy-illiquid",
 	"swd:capped", "swd:within", "sdep", "tick:position-grew", "tick:no-growth", "donate", "flow",
 }
 
 // runHist executes generated (ops == nil) or explicit operations; returns the
 // executed ops, the Coq term, the first monitor failure, and the splits hit.
-func runHist(seed uint64, idx, n int, ops []op, cnt *Counters) (exec []op, coq string, fail *Failure, okOps int, splits map[string]bool) {
+func runHist(seed uint64, idx, n int, ops []op, cnt *Counters) (exec []op, coq string, fails []*Failure, okOps int, splits map[string]bool) {
 	w := setup()
 	r := NewRng(seed, uint64(idx))
 	splits = map[string]bool{}
 	prev := w.snap()
 	header := coqEnvState(prev)
 	var steps []string
-	if v := stateMonitor(prev); v != nil {
-		fail = toFailure(v, idx, 0)
+	seenSig := map[string]bool{}
+	record := func(v *verdict, step int) {
+		if v != nil && !seenSig[v.sig] { // the first failure of every signature
+			seenSig[v.sig] = true
+			fails = append(fails, toFailure(v, idx, step))
+		}
 	}
+	record(stateMonitor(prev), 0)
 	if ops != nil {
 		n = len(ops)
 	}
@@ -266,6 +290,8 @@ func runHist(seed uint64, idx, n int, ops []op, cnt *Counters) (exec []op, coq s
 		var o op
 		if ops != nil {
 			o = ops[i]
+		} else if idx == 0 && i < len(knownStream) {
+			o = knownStream[i] // dedicated stream: reproduces the two recorded findings on every run
 		} else {
 			o = genOp(r, prev, cnt)
 		}
@@ -276,6 +302,9 @@ func runHist(seed uint64, idx, n int, ops []op, cnt *Counters) (exec []op, coq s
 			cnt.Inc("op:" + o.Kind + ":" + cls.String())
 			if cls == ClassErr {
 				cnt.Inc("err:" + o.Kind + ":" + errKind(err))
+				if o.Kind == "ewd" && errKind(err) == "insufficient-funds" {
+					cnt.Inc("split:ewd:strategy-illiquid")
+				}
 			}
 		}
 		if cls == ClassOk && o.Kind != "tick" && o.Kind != "flow" {
@@ -285,9 +314,7 @@ func runHist(seed uint64, idx, n int, ops []op, cnt *Counters) (exec []op, coq s
 		if term, ok := coqOp(o, cls, prev, after); ok {
 			steps = append(steps, fmt.Sprintf("(%s,\n    %s)", term, coqObs(cls, out, prev, after)))
 		}
-		if v := w.opMonitor(o, cls, out, prev, after); v != nil && fail == nil {
-			fail = toFailure(v, idx, i)
-		}
+		record(w.opMonitor(o, cls, out, prev, after), i)
 		prev = after
 	}
 	coq = fmt.Sprintf("mkHist %s\n  %s", header, List(steps))
@@ -300,7 +327,7 @@ func run(o Opts) (*Result, error) {
 		n = defaultLen
 	}
 	res := &Result{Property: "C11", Seed: o.Seed,
-		Rule: fmt.Sprintf("histories of %d operations (savings and earn messages of 3 accounts on a hard-strategy, a savings-strategy and a private savings-strategy vault, bank sends to the earn module account, third-party hard borrows/repays, block ticks accruing hard interest) generated from splitmix64(seed, history index) on a fresh app.TestApp; a history is non-trivial when it contains a successful earn withdrawal or deposit that exercises the dust sweep, a zero payout, a deposit into a vault holding orphaned value, a capped savings withdrawal, or an operation on the hard vault after interest accrued; distinct by hash of the operation list", n)}
+		Rule: fmt.Sprintf("histories of %d operations (savings and earn messages of 3 accounts on a hard-strategy, a savings-strategy and a private savings-strategy vault, bank sends to the earn module account, third-party hard borrows/repays, block ticks accruing hard interest) generated from splitmix64(seed, history index) on a fresh app.TestApp; a history is non-trivial when it contains a successful operation that exercises the dust sweep, a zero payout, a full exit from a vault, a deposit into a vault holding ownerless value, a capped savings withdrawal, or a deposit at a share price above one (after interest accrued); distinct by hash of the operation list", n)}
 	cnt := NewCounters()
 
 	if o.Replay != "" {
@@ -312,7 +339,7 @@ func run(o Opts) (*Result, error) {
 		if err := json.Unmarshal(bz, &h); err != nil {
 			return nil, err
 		}
-		_, coq, fail, _, _ := runHist(h.Seed, h.Idx, 0, h.Ops, cnt)
+		_, coq, fails, _, _ := runHist(h.Seed, h.Idx, 0, h.Ops, cnt)
 		name, err := WriteShard(o.OutDir, 0, coqHeader, []string{coq}, "mismatches")
 		if err != nil {
 			return nil, err
@@ -320,7 +347,7 @@ func run(o Opts) (*Result, error) {
 		res.Shards = []string{name}
 		res.HistIndex = []HistRef{{Shard: 0, Pos: 0, Hist: h.Idx, Desc: MustJSON(h)}}
 		res.Histories, res.Evaluations = 1, len(h.Ops)
-		if fail != nil {
+		for _, fail := range fails {
 			fail.Replay = MustJSON(h)
 			res.Failures = append(res.Failures, *fail)
 		}
@@ -331,31 +358,50 @@ func run(o Opts) (*Result, error) {
 	type outT struct {
 		ops    []op
 		coq    string
-		fail   *Failure
+		fails  []*Failure
 		okOps  int
 		splits map[string]bool
 	}
 	outs := make([]outT, o.N)
 	ParallelFor(o.N, o.Workers, func(i int) {
-		ops, coq, fail, okOps, splits := runHist(o.Seed, i, n, nil, cnt)
-		if fail != nil {
-			sig := fail.Signature
-			fails := func(cand []op) bool {
-				_, _, f, _, _ := runHist(o.Seed, i, 0, cand, nil)
-				return f != nil && f.Signature == sig
-			}
-			small := Shrink(ops[:fail.Step+1], fails)
-			_, _, f2, _, _ := runHist(o.Seed, i, 0, small, nil)
-			if f2 != nil && f2.Signature == sig {
-				f2.History = i
-				f2.Step = fail.Step
-				f2.Replay = MustJSON(hist{o.Seed, i, small})
-				fail = f2
-			} else {
-				fail.Replay = MustJSON(hist{o.Seed, i, ops[:fail.Step+1]})
+		ops, coq, fails, okOps, splits := runHist(o.Seed, i, n, nil, cnt)
+		for _, f := range fails {
+			f.Replay = MustJSON(hist{o.Seed, i, ops[:f.Step+1]})
+		}
+		outs[i] = outT{ops, coq, fails, okOps, splits}
+	})
+	// shrink, for every signature, its failures in the two lowest-numbered histories (deterministic choice)
+	type job struct{ i, k int }
+	perSig := map[string]int{}
+	var toShrink []job
+	for i := range outs {
+		for k, f := range outs[i].fails {
+			if perSig[f.Signature] < 2 {
+				perSig[f.Signature]++
+				toShrink = append(toShrink, job{i, k})
 			}
 		}
-		outs[i] = outT{ops, coq, fail, okOps, splits}
+	}
+	ParallelFor(len(toShrink), o.Workers, func(j int) {
+		i, k := toShrink[j].i, toShrink[j].k
+		fail := outs[i].fails[k]
+		sig := fail.Signature
+		has := func(cand []op) *Failure {
+			_, _, fs, _, _ := runHist(o.Seed, i+1000000, 0, cand, nil) // explicit ops: the index only labels the history
+			for _, f := range fs {
+				if f.Signature == sig {
+					return f
+				}
+			}
+			return nil
+		}
+		small := Shrink(outs[i].ops[:fail.Step+1], func(cand []op) bool { return has(cand) != nil })
+		if f2 := has(small); f2 != nil {
+			f2.History = i
+			f2.Step = fail.Step
+			f2.Replay = MustJSON(hist{o.Seed, i, small})
+			outs[i].fails[k] = f2
+		}
 	})
 
 	seen := map[string]bool{}
@@ -375,7 +421,7 @@ func run(o Opts) (*Result, error) {
 		cases = nil
 		return nil
 	}
-	interesting := map[string]bool{"ewd:dust-sweep-small": true, "ewd:dust-sweep-large": true, "ewd:pays-zero": true,
+	interesting := map[string]bool{"ewd:dust-sweep-small": true, "ewd:dust-sweep-large": true, "ewd:pays-zero": true, "ewd:full-exact": true,
 		"edep:first-with-orphaned-value": true, "swd:capped": true, "edep:price-cmp-one=1": true, "ewd:orphans-value": true}
 	for i, ot := range outs {
 		res.Histories++
@@ -402,8 +448,18 @@ func run(o Opts) (*Result, error) {
 				return nil, err
 			}
 		}
-		if ot.fail != nil {
-			res.Failures = append(res.Failures, *ot.fail)
+	}
+	// shrunk failures first, so that the check reports a minimised replay per signature
+	isShrunk := map[job]bool{}
+	for _, j := range toShrink {
+		isShrunk[j] = true
+		res.Failures = append(res.Failures, *outs[j.i].fails[j.k])
+	}
+	for i, ot := range outs {
+		for k, f := range ot.fails {
+			if !isShrunk[job{i, k}] {
+				res.Failures = append(res.Failures, *f)
+			}
 		}
 	}
 	if err := flush(); err != nil {
